@@ -120,12 +120,14 @@ type trun struct {
 	pool  *sim.Pool
 	obs   []uint64
 	notes []string
+	marks []uint64 // simulated time (relative to the task's start) at which each BackPropagate call began
 }
 
 // runTask executes one task's program. inCall, when non-nil, is toggled
 // around library calls (probe).
 func runTask(e *env20, steps []sim.Step, inCall *bool) *trun {
 	tr := &trun{pool: sim.NewPool()}
+	t0 := sim.Now()
 	for id, t := range e.shared {
 		tr.pool.T[id] = t
 	}
@@ -203,6 +205,7 @@ func runTask(e *env20, steps []sim.Step, inCall *bool) *trun {
 			if get(0) == nil {
 				err = fmt.Errorf("dangling")
 			} else {
+				tr.marks = append(tr.marks, sim.Now()-t0)
 				err = tensor.BackPropagate(get(0))
 			}
 		case "reset":
@@ -334,6 +337,14 @@ func (c20) Generate(r *sim.Rand, tier string) *sim.Scenario {
 	}
 	sim.SeedLibraryRNG(uint64(sc.Cfg["rngseed"]))
 	total := uint64(0)
+	allBackprop := r.Bool(0.3) // every task builds and back-propagates private graphs
+	var bpMarks [][]uint64
+	// the schedule family is chosen first so that the programs can suit it
+	schedMode := r.Intn(5)
+	stormBias := []int{sim.ClassGen, sim.ClassRNG, sim.ClassGradRule, sim.ClassBackprop, sim.ClassBackprop, sim.ClassBackprop}[r.Intn(6)]
+	if schedMode == 4 && (stormBias == sim.ClassBackprop || stormBias == sim.ClassGradRule) {
+		allBackprop = true
+	}
 	for tk := 0; tk < ntasks; tk++ {
 		e, bad := newEnv20(sc)
 		if bad != "" {
@@ -358,6 +369,9 @@ func (c20) Generate(r *sim.Rand, tier string) *sim.Scenario {
 		}
 		var steps []sim.Step
 		class := r.Intn(3) // 0 forward-only, 1 backprop class, 2 rng heavy
+		if allBackprop {
+			class = 1
+		}
 		o := genOpts{MaxElems: 36, MaxRank: 3, MaxDim: 3, Comparison: true, PSynth: 0.3, PTracked: 0.7, Client: tk}
 		usable := func() []avail {
 			var u []avail
@@ -541,6 +555,18 @@ func (c20) Generate(r *sim.Rand, tier string) *sim.Scenario {
 			default: // any forward tensor operation over shared and private tensors
 				u := usable()
 				xa := u[r.Intn(len(u))]
+				if class == 1 && r.Bool(0.7) {
+					// prefer the task's own recent tracked results: fan-out and reconvergence
+					var own []avail
+					for _, a := range u {
+						if a.ID >= 1000 && trk[a.ID] && !touch[a.ID] {
+							own = append(own, a)
+						}
+					}
+					if len(own) > 0 {
+						xa = own[len(own)-1-r.Intn(minInt(3, len(own)))]
+					}
+				}
 				ps := propose(r, ids, u, xa, &o)
 				if len(ps) == 0 {
 					fails++
@@ -594,9 +620,11 @@ func (c20) Generate(r *sim.Rand, tier string) *sim.Scenario {
 		sc.Steps = append(sc.Steps, steps...)
 		// solo step count on a fresh setup
 		e2, _ := newEnv20(sc)
-		used, _ := sim.WithBudget(0, func() { runTask(e2, steps, nil) })
+		var tr2 *trun
+		used, _ := sim.WithBudget(0, func() { tr2 = runTask(e2, steps, nil) })
 		sc.Data["solo"] = append(sc.Data["solo"], float64(used))
 		total += used
+		bpMarks = append(bpMarks, tr2.marks)
 	}
 	/* preemption plan */
 	sc.Cfg["first"] = float64(r.Intn(ntasks))
@@ -604,7 +632,31 @@ func (c20) Generate(r *sim.Rand, tier string) *sim.Scenario {
 	if T < 1 {
 		T = 1
 	}
-	switch mode := r.Intn(4); mode {
+	switch mode := schedMode; mode {
+	case 4: // storm: from a random instant on, EVERY yield of one site class switches task (n times)
+		k0 := r.Intn(T)
+		bias := stormBias
+		if bias == sim.ClassBackprop || bias == sim.ClassGradRule {
+			// start the storm inside a back-propagation: the first task runs
+			// undisturbed until then, so its local time is the global time
+			var cands []int
+			for tk, m := range bpMarks {
+				if len(m) > 0 {
+					cands = append(cands, tk)
+				}
+			}
+			if len(cands) > 0 {
+				a := cands[r.Intn(len(cands))]
+				m := bpMarks[a]
+				k0 = int(m[r.Intn(len(m))]) + r.Intn(80)
+				sc.Cfg["first"] = float64(a)
+			}
+		}
+		n := r.Range(10, 80)
+		for i := 0; i < n; i++ {
+			sc.Sched = append(sc.Sched, [2]int{k0, r.Intn(ntasks)})
+		}
+		sc.Cfg["bias"] = float64(bias)
 	case 0: // random switching
 		p := []float64{0.1, 0.01, 0.001}[r.Intn(3)]
 		k := 0
@@ -627,7 +679,7 @@ func (c20) Generate(r *sim.Rand, tier string) *sim.Scenario {
 			sc.Sched = append(sc.Sched, [2]int{k, r.Intn(ntasks)})
 		}
 		if mode >= 2 {
-			sc.Cfg["bias"] = float64([]int{sim.ClassGen, sim.ClassRNG, sim.ClassGradRule, sim.ClassGen}[r.Intn(4)])
+			sc.Cfg["bias"] = float64([]int{sim.ClassGen, sim.ClassRNG, sim.ClassGradRule, sim.ClassBackprop, sim.ClassBackprop}[r.Intn(5)])
 		}
 	}
 	return sc
@@ -728,6 +780,8 @@ func (prop c20) Execute(sc *sim.Scenario) *sim.Outcome {
 				out.Probes["preemption-inside-rng-draw"]++
 			case sim.ClassGradRule:
 				out.Probes["preemption-inside-backward-rule"]++
+			case sim.ClassBackprop:
+				out.Probes["preemption-inside-backprop-traversal"]++
 			}
 		}
 	}
